@@ -253,11 +253,35 @@ def run(prop, tier, seed):
             van = HH2ErrorEstimator(SL=SL, g=lambda es: rhs_star, use_mp=False).estimate(elems, Phi)
         scale = math.sqrt(np.repeat(Phi, 4) @ Aff @ np.repeat(Phi, 4))
         num("hh2-vanishes", van, 0.0, 1e-10 * scale, curve=name)
+        # the same with right-hand sides that equal the fine product only up to rounding (summed in another order), several
+        # densities: the estimator must stay real, non-negative and of the size of rounding errors
+        worst_v, real_ok = 0.0, True
+        for rep_v in range(6):
+            Ph_v = np.array([rng.uniform(-1, 1) for _ in range(N)])
+            rep4 = np.repeat(Ph_v, 4)
+            rhs_v = np.array([math.fsum(float(a) * float(b) for a, b in zip(Aff[i, ::-1], rep4[::-1])) for i in range(len(rep4))])
+            with contextlib.redirect_stdout(io.StringIO()), np.errstate(all="ignore"):
+                v_ = HH2ErrorEstimator(SL=SL, g=lambda es: rhs_v, use_mp=False).estimate(elems, Ph_v)
+            sc_ = math.sqrt(rep4 @ Aff @ rep4)
+            if not (np.isfinite(v_) and v_ >= 0):
+                real_ok = False
+            else:
+                worst_v = max(worst_v, float(v_) / sc_)
+        num("hh2-vanishes-real", ok=real_ok, curve=name)
+        num("hh2-vanishes-rounded-rhs", worst_v, 0.0, 1e-7, curve=name)
         # Prolongate between nested meshes
         vec = np.array([rng.uniform(-1, 1) for _ in coarse2])
         pr = Prolongate(vec, coarse2, fine)
         okp = all(pr[j] == vec[[gkey(c) for c in coarse2].index(keys[par[j]])] for j in range(len(fine)))
         num("prolongate", ok=okp, curve=name)
+        # lists of equal length in different orders / forms (the same leaves sorted otherwise, reversed, as tuples)
+        okq = True
+        for tgt in (list(reversed(coarse2)), sorted(coarse2, key=lambda e: (float(e.space_interval[0]), float(e.time_interval[0]))), tuple(coarse2[1:] + coarse2[:1])):
+            for v_in in (vec, list(vec), np.array(vec)[::-1][::-1]):
+                pr2 = Prolongate(v_in, coarse2, tgt)
+                okq = okq and len(pr2) == len(tgt) and all(pr2[j] == vec[coarse2.index(t)] for j, t in enumerate(tgt))
+                okq = okq and (pr2 is not v_in)
+        num("prolongate-same-length-other-order", ok=okq, curve=name)
         stats.append({"curve": name, "elements": N})
     # with initial data (Singular problem on the unit square, u0 = 1)
     from src.initial_mesh import UnitSquareBoundaryRefined
